@@ -20,7 +20,7 @@ for p in props:
             'engine': 'pyvc',
             'level_claimed': {'category': c['category'], 'text': c['text'], 'design_ref': PROPS[pid].get('design_ref', '')},
             'level_note': c['note'],
-            'technique': c.get('technique', 'contract-based deductive verification: VCs generated from the real Python source (own ast->SMT generator), discharged by z3'),
+            'technique': c.get('technique', 'contract-based deductive verification: VCs generated from the real Python source (own ast->SMT generator), discharged by z3 (cvc5 on what z3 leaves open; in the thorough tier cvc5 re-decides every z3 proof); a bounded native stand-in with an independent oracle runs beside it on every run and is never counted as proved'),
         })
     else:
         na.append({'property_id': pid, 'reason': c.get('na_reason', 'check not built yet (DESIGN.md section 11 milestone pending); not a statement that the technique cannot apply')})
@@ -31,7 +31,7 @@ m = {
               'baseline_off_cmd': 'cd /repo && /venv/bin/python -m pytest -ra -q -p no:cacheprovider --timeout=900 --continue-on-collection-errors',
               'source_commits': [], 'add_only': True},
     'engines': [{'name': 'pyvc', 'path': 'pyvc/', 'serves_properties': [c['property_id'] for c in checks],
-                 'kind_free_text': 'verification-condition generator over the real Python source (ast -> SMT), modular contracts in contracts/*.py, Houdini loop invariants, z3 back end; finite-scope refutation + native replay harnesses in replay/'}],
+                 'kind_free_text': 'verification-condition generator over the real Python source (ast -> SMT), modular contracts in contracts/*.py, Houdini loop invariants, z3 + cvc5 back ends; finite-scope refutation, native replay of counter-models and bounded stand-ins (replay/)'}],
     'checks': checks,
     'notes': 'See DESIGN.md. Genuine defects repaired in /repo are `fix:` commits listed in known_findings.jsonl.',
     'not_applicable': na,
